@@ -17,6 +17,7 @@
     tie_virtual_read_as_attr     … and the reader does ask for `virtual` — as an attribute
     tie_required_is_written      every item the reader REQUIRES is written on every path — except the listed ones, whose
                                  guards are the model's `ok` side conditions (cycle of a light, …)
+    tie_read_is_written          the reader looks up nothing the writer does not emit, except the listed legacy / lenient look-ups
     tie_orientation_special      the one state attribute the reader handles by a literal tag is read like the generic ones
     tie_model_emits_code_items / tie_code_items_in_model
                                  the items the MODEL writer emits on a maximal sample file (every optional part present,
@@ -182,6 +183,28 @@ theorem tie_required_is_written :
        ("trafficLight", .elem, "cycle")] := by
   decide +kernel
 
+/-- what the reader asks for and the writer never emits -/
+def unwritten (ws : List W) (rs : List R) : List (String × Item × String) :=
+  (rs.filter (fun r => !ws.any (covers r ·))).map (fun r => (r.kind, r.item, r.name))
+
+/-- **the reader asks for nothing else**: besides what the writer emits it only looks up — a `z` of a shape centre, the 2018b
+    `speedLimit`, `wheelbase`, the literal `orientation` (tie_orientation_special), a point as goal position, lanelet
+    references as the position of a non-goal state, interval times where the writer only writes exact ones, signal states of a
+    static obstacle, and the ATTRIBUTE `virtual`.  So a tag the writer renames or drops shows up here. -/
+theorem tie_read_is_written :
+    unwritten writer reader =
+      [("center", .elem, "z"), ("commonRoad/lanelet", .elem, "speedLimit"), ("dynamicObstacle", .elem, "wheelbase"),
+       ("goalState", .elem, "orientation"), ("goalState/position", .elem, "point"),
+       ("initialSignalState/time", .elem, "intervalEnd"), ("initialSignalState/time", .elem, "intervalStart"),
+       ("initialState", .elem, "orientation"), ("initialState/position", .elem, "lanelet"),
+       ("initialState/time", .elem, "intervalEnd"), ("initialState/time", .elem, "intervalStart"),
+       ("orientation", .elem, "exact"), ("orientation", .elem, "intervalEnd"), ("orientation", .elem, "intervalStart"),
+       ("signalState/time", .elem, "intervalEnd"), ("signalState/time", .elem, "intervalStart"), ("speedLimit", .text, ""),
+       ("state", .elem, "orientation"), ("state/position", .elem, "lanelet"), ("state/time", .elem, "intervalEnd"),
+       ("state/time", .elem, "intervalStart"), ("staticObstacle", .elem, "initialSignalState"),
+       ("staticObstacle", .elem, "signalSeries"), ("trafficSign", .attr, "virtual")] := by
+  decide +kernel
+
 def stateKinds : List String := ["initialState", "state", "goalState"]
 
 /-- the state attributes the reader looks up by a literal tag instead of through `_map_to_xml_prop` -/
@@ -194,6 +217,78 @@ theorem tie_orientation_special :
     specialStateNames reader = ["orientation"]
       ∧ (writer.filter (fun w => w.kind == "<xmlName>")).all
           (fun w => reader.any (fun r => r.kind == "orientation" && r.item == w.item && r.name == w.name)) = true := by
+  decide +kernel
+
+/-! ## structural tie: the model writer against the extracted writer table -/
+
+/-- tags whose kind is `parentTag/tag` (harness/translate/src_c01.py AMBIG) -/
+def ambig : List String := ["position", "time", "lanelet"]
+def stateKinds' : List String := ["initialState", "state", "goalState"]
+
+/-- the wild-card name the extraction gives a tag computed at run time -/
+def absName (parent name : String) : String :=
+  if parent == "scenarioTags" then "<Tag>"
+  else if stateKinds'.contains parent && name != "position" && name != "time" then
+    (if parent == "goalState" then "<camel>" else "<xmlName>")
+  else name
+
+/-- the items of an element tree, keyed like the extracted tables (fuel = depth) -/
+def itemsOf : Nat → String → String → Xml → List (String × Item × String)
+  | 0, _, _, _ => []
+  | n + 1, tag, kind, x =>
+    x.attrs.map (fun a => (kind, Item.attr, a.1)) ++ (if x.text != "" then [(kind, Item.text, "")] else []) ++
+      x.kids.flatMap (fun k =>
+        let nm := absName tag k.tag
+        (kind, Item.elem, nm) :: itemsOf n nm (if ambig.contains nm then tag ++ "/" ++ nm else nm) k)
+
+def P4 : Params := ⟨4, [], []⟩
+def pt2 : Pt := ⟨"1.5", "2.5", none⟩
+def pt3 : Pt := ⟨"1.5", "2.5", some "0.5"⟩
+def shapes3 : List Shape1 := [.rect "4.0" "2.0" "0.1" pt2, .circ "1.0" pt2, .poly [pt2]]
+def one1 : Shape := .one (.circ "1.0" pt2)
+def grp : Shape := .group shapes3
+def stPoint : State := ⟨[("position", .pos (.point pt3)), ("time_step", .time (.exact 0)), ("velocity", .val (.exact "1.0")),
+  ("orientation", .val (.interval "0.1" "0.2"))]⟩
+def stRegion : State := ⟨[("position", .pos (.region grp)), ("time_step", .time (.exact 1)), ("velocity", .val (.exact "1.0"))]⟩
+def goal1 : State := ⟨[("position", .pos (.lanelets [1])), ("time_step", .time (.interval 1 2)), ("velocity", .val (.interval "0.0" "1.0"))]⟩
+def goal2 : State := ⟨[("position", .pos (.region grp)), ("time_step", .time (.exact 3)), ("velocity", .val (.exact "1.0"))]⟩
+def sig : Signal := ⟨0, some true, some false, some true, some false, some true, some false⟩
+def occs : List Occupancy := [⟨one1, .exact 1⟩, ⟨one1, .interval 2 3⟩]
+def bnd : Bound := ⟨[pt3], "solid"⟩
+
+def sampleDoc : Doc :=
+  { lanelets := [⟨1, bnd, bnd, [2], [3], some ⟨4, true⟩, some ⟨5, false⟩, some ⟨some (pt2, pt2), "solid", [7], [8]⟩, ["urban"], ["car"],
+                  ["bus"], [7], [8]⟩],
+    signs := [⟨7, [⟨"274", ["50"]⟩], some pt2, true⟩],
+    lights := [⟨8, some ⟨[⟨5, "red"⟩], 1⟩, some pt2, "left", false⟩],
+    intersections := [⟨9, [⟨10, [1], [2], [3], [4], some 11⟩], [5]⟩],
+    statics := [⟨20, "car", one1, stPoint⟩],
+    dynamics := [⟨21, "car", grp, stRegion, some sig, .traj [stPoint, stRegion], [sig]⟩, ⟨22, "car", one1, stPoint, none, .occ occs, []⟩],
+    phantoms := [⟨23, some [⟨one1, .exact 1⟩]⟩],
+    envs := [⟨24, "building", one1⟩],
+    problems := [⟨30, stPoint, [goal1, goal2]⟩] }
+
+def sampleFile : File :=
+  ⟨⟨"0.1", some "a", some "b", some "c", "ZAM_Test-1_1_T-1"⟩,
+   some ⟨1, "48.0", "11.0", some ⟨"ref", some ⟨"1.0", "2.0", "0.0", "1.0"⟩⟩, some ⟨7, 5, "noon", "clear", "wet"⟩⟩, ["urban"], sampleDoc⟩
+
+def sampleCfg : FileCfg := ⟨P4, [], ["ZAM"], [("ZAM", (["274"], some "274"))], "2026-01-01"⟩
+
+/-- the items the MODEL writer emits for the sample file -/
+def modelItems : List (String × Item × String) := (itemsOf 12 "commonRoad" "commonRoad" (encodeFile sampleCfg sampleFile))
+
+
+/-- **model ⊆ code**: every item the MODEL writer emits for the maximal sample file (every optional part present, every
+    alternative taken) is in the writer table extracted from the code -/
+theorem tie_model_emits_code_items :
+    modelItems.all (fun t => writer.any (fun w => w.kind == t.1 && w.item == t.2.1 && w.name == t.2.2)) = true := by
+  decide +kernel
+
+/-- **code ⊆ model**: every item of the extracted writer table is emitted by the model writer on that sample: the code writes
+    no element, attribute or text the codec model does not have (and, with `tie_written_is_read` / `tie_read_is_written`, the
+    reader code looks up exactly the model's tags: `enc` and `dec` of a codec share their tags by construction) -/
+theorem tie_code_items_in_model :
+    writer.all (fun w => modelItems.any (fun t => w.kind == t.1 && w.item == t.2.1 && w.name == t.2.2)) = true := by
   decide +kernel
 
 end CR.X.Tie
